@@ -8,6 +8,7 @@ C12.c process-wide singletons / class-level state are idempotent; mutable consta
 C12.d other module-level state on the per-block path (greedy `verbose`, ...) is assigned before it is read
 C12.e no other module keeps run-time state across blocks
 C12.f no written mutable default argument
+C12.g per-block parser state is renewed at every block boundary
 """
 import ast
 
